@@ -71,7 +71,7 @@ static void prop(Tape &t, Ctx &c) {
             if (!mv) break; } };
     auto mk = [&](Pair &p, sslSessionId_t *s) { Config cc, sc; cc.client = true; sc.client = false; cc.versions = sc.versions = { ver }; cc.suites = { su.id }; cc.auth = sc.auth = su.auth; cc.entropy_stream = 1; sc.entropy_stream = 2;
         cc.client_auth = sc.client_auth = kind == 1; sc.cert_cb = cb_strict; cc.sid = s; if (early) sc.max_early_data = 16384; return p.s.open(sc) >= 0 && p.c.open(cc) >= 0; };
-    if (kind == 2) { if (matrixSslNewSessionId(&sid, NULL) < 0) throw Discard{}; Pair p0; if (!mk(p0, sid)) throw Discard{}; settle(p0); if (!(p0.c.hs_complete() && p0.s.hs_complete())) throw Discard{}; }
+    if (kind == 2) { if (matrixSslNewSessionId(&sid, NULL) < 0) throw Discard{}; Pair p0; if (!mk(p0, sid)) throw Discard{}; settle(p0); if (dt) for (int r = 0; r < 6 && !(p0.c.hs_complete() && p0.s.hs_complete()); r++) { p0.c.dtls_timeout(); p0.s.dtls_timeout(); settle(p0); } VF_CHECK(p0.c.hs_complete() && p0.s.hs_complete(), "harness-priming-handshake-failed", "priming session did not complete; %s", desc.c_str()); }
     Pair p; if (!mk(p, sid)) throw Discard{};
     if (early) { p.c.sel(); if (matrixSslGetMaxEarlyData(p.c.ssl) > 0) { for (int i = 0; i < n_early; i++) { Bytes m(20 + 31 * i, (uint8_t) (0x41 + i)); p.c.send(m, 1); } c.count("tls13-early-data-sent"); } else c.count("tls13-early-data-not-offered"); }
     settle(p);
